@@ -10,6 +10,9 @@ static ENABLED: AtomicBool = AtomicBool::new(false);
 static LIVE: AtomicUsize = AtomicUsize::new(0);
 static PEAK: AtomicUsize = AtomicUsize::new(0);
 static COUNT: AtomicUsize = AtomicUsize::new(0);
+/// Allocations of at least this many bytes are refused (0 = never): used by
+/// one probe child to model a process that cannot get large blocks.
+static REFUSE_AT: AtomicUsize = AtomicUsize::new(0);
 
 #[inline]
 fn add(n: usize) {
@@ -20,6 +23,10 @@ fn add(n: usize) {
 
 unsafe impl GlobalAlloc for Counting {
     unsafe fn alloc(&self, l: Layout) -> *mut u8 {
+        let r = REFUSE_AT.load(Ordering::Relaxed);
+        if r != 0 && l.size() >= r {
+            return std::ptr::null_mut();
+        }
         let p = System.alloc(l);
         if !p.is_null() && ENABLED.load(Ordering::Relaxed) {
             add(l.size());
@@ -46,6 +53,10 @@ unsafe impl GlobalAlloc for Counting {
         }
         q
     }
+}
+
+pub fn refuse_allocations_of(n: usize) {
+    REFUSE_AT.store(n, Ordering::SeqCst);
 }
 
 pub fn enable() {
